@@ -70,8 +70,8 @@ class CallObj:
     def __init__(self, fn):
         self.fn = fn
 
-    def __call__(self, *args, **kwargs):
-        return self.fn(*args, **kwargs)
+    def __call__(*args, **kwargs):           # no named parameter: the caller may pass any keyword, also `self`
+        return args[0].fn(*args[1:], **kwargs)
 
 
 def underlying(o):
